@@ -298,22 +298,60 @@ def run(R):
         R.fail('C09.TBL.2', inst, CM, 'CHARSET', f'CHARSET differs from unreserved + {{=, %}}: extra {sorted(cs - want)}, missing {sorted(want - cs)}', P.path_of(CM))
     if '/' in cs:
         R.fail('C09.TBL.2', 'CHARSET :: separator', CM, 'CHARSET', 'the name separator / is in CHARSET (would be emitted raw inside a component)', P.path_of(CM))
-    for fq in (CM + '.to_str.<decode>', CM + '.to_canonical_uri.<decode>'):
-        if fq not in P.funcs:
-            continue
+    # the octet -> URI text rule of to_str / to_canonical_uri, folded for every octet 0..255 whatever its spelling (nested helper, table, loop):
+    # an octet is written raw iff it is in CHARSET and not a metacharacter, otherwise as %XX (upper-case hexadecimal)
+    from ..fold import Folder, CannotFold
+    raw_ok = cs - {'%', '='}
+    for fq in (CM + '.to_str', CM + '.to_canonical_uri'):
         dx = ctx(R, fq)
-        ts = [t for t in dx.cfg.nodes if t.kind == 'test']
-        txt = ' and '.join(ast.unparse(t.ast) for t in ts)
-        inst = f'{fq} :: raw iff in CHARSET and not a metacharacter'
-        excl = None
-        for t in ts:
-            if isinstance(t.ast, ast.Compare) and isinstance(t.ast.ops[0], ast.NotIn) and isinstance(t.ast.comparators[0], ast.Set):
-                excl = {e.value for e in t.ast.comparators[0].elts if isinstance(e, ast.Constant)}
-        inc = any(ast.unparse(t.ast) == 'ret in CHARSET' for t in ts)
-        if inc and excl == {'%', '='}:
-            R.ok('C09.TBL.2', inst, dx.f.loc())
+        fn = dx.f.node
+        closures = {x.name: x for x in fn.body if isinstance(x, ast.FunctionDef)}
+        cands = []
+        for x in ast.walk(fn):
+            if isinstance(x, ast.Call) and isinstance(x.func, ast.Attribute) and x.func.attr == 'join' and len(x.args) == 1 \
+                    and isinstance(x.args[0], (ast.GeneratorExp, ast.ListComp)) and len(x.args[0].generators) == 1 \
+                    and isinstance(x.args[0].generators[0].target, ast.Name) and not x.args[0].generators[0].ifs:
+                g = x.args[0]
+                cands.append((x, lambda b, g=g: Folder(P, dx.f.mod, closures).ev(g.elt, {g.generators[0].target.id: b})))
+            elif isinstance(x, ast.For) and isinstance(x.target, ast.Name) and not x.orelse:
+                accs = {c.func.value.id for c in ast.walk(x) if isinstance(c, ast.Call) and isinstance(c.func, ast.Attribute) and c.func.attr == 'append'
+                        and isinstance(c.func.value, ast.Name)} | {a.target.id for a in ast.walk(x) if isinstance(a, ast.AugAssign) and isinstance(a.target, ast.Name)}
+                if len(accs) == 1:
+                    acc = next(iter(accs))
+                    is_list = any(isinstance(c, ast.Call) and isinstance(c.func, ast.Attribute) and c.func.attr == 'append' for c in ast.walk(x))
+
+                    def per(b, x=x, acc=acc, is_list=is_list):
+                        env = {x.target.id: b, acc: [] if is_list else ''}
+                        Folder(P, dx.f.mod, closures).run_block(x.body, env)
+                        return ''.join(env[acc]) if is_list else env[acc]
+                    cands.append((x, per))
+        tables = []
+        for (x, per) in cands:
+            try:
+                tab = [per(b) for b in range(256)]
+            except (CannotFold, KeyError, IndexError, TypeError, ValueError):
+                continue
+            if all(isinstance(t, str) for t in tab):
+                tables.append((x, tab))
+        inst = f'{fq} :: an octet is written raw iff it is in CHARSET and not a metacharacter, else %XX'
+        if not tables:
+            R.defer(f'{fq}: the octet -> text rule was not found in a foldable form (cannot decide C09.TBL.2 for it)')
+            continue
+        R.paths_examined += 256 * len(tables)
+        bad = []
+        for (x, tab) in tables:
+            for b in range(256):
+                want_t = chr(b) if chr(b) in raw_ok else '%%%02X' % b
+                if tab[b] != want_t:
+                    bad.append((x, b, tab[b], want_t))
+        if bad:
+            x, b, got, want_t = bad[0]
+            octs = sorted({b_ for (_x, b_, _g, _w) in bad})
+            R.fail('C09.TBL.2', inst, fq, x, f'{len(octs)} octet value(s) are not written as the URI rule says, e.g. 0x{b:02X} is written {got!r} instead of {want_t!r} '
+                   f'(octets {", ".join("0x%02X" % o for o in octs[:8])}{" ..." if len(octs) > 8 else ""}): the text does not parse back to the same component',
+                   site(dx, x))
         else:
-            R.fail('C09.TBL.2', inst, fq, 'def decode', f'bytes are emitted raw under `{txt}`: the metacharacters % and = must always be escaped', dx.f.loc())
+            R.ok('C09.TBL.2', inst, dx.f.loc(), f'{len(tables)} rule(s) folded over 256 octets')
     ec = ctx(R, CM + '.escape_str.<escape_chr>')
     ts = [t for t in ec.cfg.nodes if t.kind == 'test']
     inst = ec.qual + ' :: passes exactly CHARSET'
